@@ -52,6 +52,8 @@ type Obligation struct {
 }
 
 type VC struct {
+	monotoneMapStore bool            // the map store being executed is to a `monotone-map` variable
+	catMemo          map[string]*Term // string concatenations already built (functional)
 	splitTail       ast.Stmt // `loop N split`: the switch ending the loop body, whose case ends are separate paths
 	splitTailTarget *target
 	siteHits map[string]int // site directives that matched a statement
